@@ -1,6 +1,6 @@
 HOOK_COMMITS = []
 _PENDING = "check not built yet in this round (planned, see DESIGN.md section 9); not a statement that the technique cannot apply"
-NOT_APPLICABLE = {p: _PENDING for p in ["C01","C02","C03","C04","C05","C06","C07","C08","C09","C10","C11","C12","C13","C14","C16","C18","C19","C20"]}
+NOT_APPLICABLE = {p: _PENDING for p in ["C01","C02","C03","C04","C05","C06","C07","C08","C09","C10","C11","C12","C13","C16","C18","C19","C20"]}
 TEXT = {
  "C17": {
   "text": "Lean mirror of integer.h / dyadic_rational.h / rational.h; theorems for every modulus m>=2 and every operand state that each "
@@ -18,6 +18,17 @@ TEXT = {
           "Value intervals (lp_interval_*) and interval evaluation of polynomials are covered by correspondence only so far.",
   "design_ref": "5.15",
   "note": "hand mirror of arithmetic.c tied by correspondence; algebraic end points not replayed; exact scalar arithmetic trusted from C17",
+  "technique": "Lean 4 proof over mirror model + exhaustive/differential correspondence harness",
+ },
+ "C14": {
+  "text": "Lean mirror of feasibility_set_int.c (sorted-list sweeps union/intersect/minus, complement materialisation, the four "
+          "representation combinations, status bits, contains/isEmpty/isFull, constructor). Theorems for all M and all sets satisfying "
+          "the representation invariant: results keep the invariant, denote exactly the union/intersection, status S1/S2/EMPTY is "
+          "correct, emptiness/fullness/membership agree with the denoted subset. Tied to the C code exhaustively for p<=5 (p<=7 "
+          "thorough) over all subset pairs x 4 representations and by random sets for larger/multi-limb primes. Z_p root finding and "
+          "constraint feasible sets are not yet in this check.",
+  "design_ref": "5.14",
+  "note": "size/isPoint/eq and the in-range claim of value picking are tied by (exhaustive) correspondence only, not yet proved; qsort modelled as sorted insertion",
   "technique": "Lean 4 proof over mirror model + exhaustive/differential correspondence harness",
  },
 }
